@@ -17,6 +17,7 @@ import (
 	"github.com/failsafe-go/failsafe-go/fallback"
 	"github.com/failsafe-go/failsafe-go/hedgepolicy"
 	"github.com/failsafe-go/failsafe-go/retrypolicy"
+	"github.com/failsafe-go/failsafe-go/timeout"
 	"pgregory.net/rapid"
 
 	"verif/harness"
@@ -83,13 +84,13 @@ var errX = errors.New("attempt failed")
 type readerOp string // isdone | peek (non-blocking select on Done) | get | result | error | wait (block on Done)
 
 type scenario struct {
-	Stack     string       `json:"stack"`   // none | retry | retry-delay | fallback(retry) | hedge
-	Entry     int          `json:"entry"`   // 4..7: the async entry points
-	Outcomes  []bool       `json:"outcomes"` // per attempt: success?
-	Readers   [][]readerOp `json:"readers"`
-	EarlyN    int          `json:"early_n"`   // this many readers start before the first gate is opened
-	Cancel    string       `json:"cancel"`    // none | before-start | in-attempt | between | after
-	CancelAt  int          `json:"cancel_at"` // attempt number for in-attempt / between
+	Stack    string       `json:"stack"`    // none | retry | retry-delay | fallback(retry) | hedge
+	Entry    int          `json:"entry"`    // 4..7: the async entry points
+	Outcomes []bool       `json:"outcomes"` // per attempt: success?
+	Readers  [][]readerOp `json:"readers"`
+	EarlyN   int          `json:"early_n"`   // this many readers start before the first gate is opened
+	Cancel   string       `json:"cancel"`    // none | before-start | in-attempt | between | after
+	CancelAt int          `json:"cancel_at"` // attempt number for in-attempt / between
 }
 
 type obs struct {
@@ -157,9 +158,15 @@ func run(sc scenario) (out runOut) {
 		pols = []failsafe.Policy[int]{hedgepolicy.BuilderWithDelay[int](time.Hour).Build()}
 	}
 	ex := failsafe.NewExecutor[int](pols...).
-		OnDone(func(e failsafe.ExecutionDoneEvent[int]) { add(obs{who: "listener", what: "OnDone", val: e.Result, err: e.Error}) }).
-		OnSuccess(func(e failsafe.ExecutionDoneEvent[int]) { add(obs{who: "listener", what: "OnSuccess", val: e.Result, err: e.Error}) }).
-		OnFailure(func(e failsafe.ExecutionDoneEvent[int]) { add(obs{who: "listener", what: "OnFailure", val: e.Result, err: e.Error}) })
+		OnDone(func(e failsafe.ExecutionDoneEvent[int]) {
+			add(obs{who: "listener", what: "OnDone", val: e.Result, err: e.Error})
+		}).
+		OnSuccess(func(e failsafe.ExecutionDoneEvent[int]) {
+			add(obs{who: "listener", what: "OnSuccess", val: e.Result, err: e.Error})
+		}).
+		OnFailure(func(e failsafe.ExecutionDoneEvent[int]) {
+			add(obs{who: "listener", what: "OnFailure", val: e.Result, err: e.Error})
+		})
 	var er failsafe.ExecutionResult[int]
 	isRun := false
 	switch sc.Entry {
@@ -559,3 +566,145 @@ func TestRegress(t *testing.T) {
 		st.Case(f, true, "regress")
 	}
 }
+
+// TestCancelAfterInnerTimeout: under Retry(Timeout(fn)) an attempt is ended by the inner Timeout; while the retry policy
+// then waits (an hour) for the next attempt, the caller cancels the ExecutionResult. The execution has not completed, so
+// every reader must see ErrExecutionCanceled, not the stale result of the attempt that timed out.
+func TestCancelAfterInnerTimeout(t *testing.T) {
+	const test = "TestCancelAfterInnerTimeout"
+	st := harness.NewStats(test)
+	defer st.Flush()
+	rapid.Check(t, func(t *rapid.T) {
+		type scen struct {
+			Entry   int    `json:"entry"`
+			Readers int    `json:"readers"`
+			Outer   string `json:"outer"` // none | fallback
+		}
+		sc := scen{Entry: rapid.IntRange(4, 7).Draw(t, "entry"), Readers: rapid.IntRange(1, 8).Draw(t, "readers"), Outer: rapid.SampledFrom([]string{"none", "fallback"}).Draw(t, "outer")}
+		scheduled := make(chan struct{}, 8)
+		rp := retrypolicy.Builder[int]().WithMaxRetries(3).WithDelay(time.Hour).OnRetryScheduled(func(failsafe.ExecutionScheduledEvent[int]) { scheduled <- struct{}{} }).Build()
+		to := timeoutWith(500 * time.Microsecond)
+		pols := []failsafe.Policy[int]{rp, to}
+		if sc.Outer == "fallback" {
+			pols = append([]failsafe.Policy[int]{fallback.WithResult[int](55)}, pols...)
+		}
+		ex := failsafe.NewExecutor[int](pols...)
+		blockExec := func(e failsafe.Execution[int]) (int, error) { <-e.Canceled(); return 0, errX }
+		blockPlain := func() (int, error) { time.Sleep(3 * time.Millisecond); return 0, errX } // outlasts the limit
+		var er failsafe.ExecutionResult[int]
+		switch sc.Entry {
+		case 4:
+			er = ex.RunAsync(func() error { _, e := blockPlain(); return e })
+		case 5:
+			er = ex.RunWithExecutionAsync(func(e failsafe.Execution[int]) error { _, err := blockExec(e); return err })
+		case 6:
+			er = ex.GetAsync(blockPlain)
+		default:
+			er = ex.GetWithExecutionAsync(blockExec)
+		}
+		select {
+		case <-scheduled: // the first attempt timed out and the policy is now waiting for the retry
+		case <-er.Done():
+			v, e := er.Get()
+			harness.Violation(t, prop, test, "completed-instead-of-waiting", sc, "%+v: completed with (%d,%v) instead of waiting for the retry", sc, v, e)
+		case <-time.After(30 * time.Second):
+			harness.Inconclusive(t, "the first attempt did not time out within 30s")
+		}
+		er.Cancel()
+		var wg sync.WaitGroup
+		errs := make([]error, sc.Readers)
+		for i := range errs {
+			wg.Add(1)
+			go func(i int) { defer wg.Done(); _, errs[i] = er.Get() }(i)
+		}
+		fin := make(chan struct{})
+		go func() { wg.Wait(); close(fin) }()
+		select {
+		case <-fin:
+		case <-time.After(30 * time.Second):
+			harness.Violation(t, prop, test, "never-done", sc, "%+v: readers still blocked 30s after Cancel", sc)
+		}
+		for i, e := range errs {
+			if !errors.Is(e, failsafe.ErrExecutionCanceled) {
+				harness.Violation(t, prop, test, "cancel-not-reported", sc, "%+v: reader %d got %v after Cancel during the retry delay that followed an inner timeout", sc, i, e)
+			}
+		}
+		b, _ := json.Marshal(sc)
+		st.Case(string(b), true, "outer="+sc.Outer)
+		st.Sample(string(b), func() any { return sc })
+	})
+}
+
+// TestCancelSpin: Cancel() from another goroutine after a generated spin, against an async execution that runs through
+// failing attempts without delay: whichever step of the retry loop it lands on, the result is ErrExecutionCanceled.
+func TestCancelSpin(t *testing.T) {
+	const test = "TestCancelSpin"
+	st := harness.NewStats(test)
+	defer st.Flush()
+	per := 2000
+	rapid.Check(t, func(t *rapid.T) {
+		maxSpin := rapid.SampledFrom([]int{2000, 20000, 100000}).Draw(t, "maxSpinNs")
+		seed := rapid.Uint64().Draw(t, "spinSeed")
+		outer := rapid.SampledFrom([]string{"none", "fallback", "hedge-1h"}).Draw(t, "outer")
+		var wg sync.WaitGroup
+		var firstBad atomicErr
+		sem := make(chan struct{}, 32)
+		for i := 0; i < per; i++ {
+			seed = seed*6364136223846793005 + 1442695040888963407
+			spin := time.Duration(int(seed>>33) % maxSpin)
+			sem <- struct{}{}
+			wg.Add(1)
+			go func() {
+				defer wg.Done()
+				defer func() { <-sem }()
+				pols := []failsafe.Policy[int]{retrypolicy.Builder[int]().WithMaxRetries(-1).Build()}
+				switch outer {
+				case "fallback":
+					pols = append([]failsafe.Policy[int]{fallback.WithResult[int](55)}, pols...)
+				case "hedge-1h":
+					pols = append([]failsafe.Policy[int]{hedgepolicy.BuilderWithDelay[int](time.Hour).Build()}, pols...)
+				}
+				er := failsafe.NewExecutor[int](pols...).GetAsync(func() (int, error) { return 0, errX })
+				for end := time.Now().Add(spin); time.Now().Before(end); {
+				}
+				er.Cancel()
+				select {
+				case <-er.Done():
+				case <-time.After(30 * time.Second):
+					firstBad.set(errors.New("not done 30s after Cancel"))
+					return
+				}
+				if _, e := er.Get(); !errors.Is(e, failsafe.ErrExecutionCanceled) {
+					firstBad.set(e)
+				}
+			}()
+		}
+		wg.Wait()
+		if e := firstBad.get(); e != nil {
+			harness.Violation(t, prop, test, "cancel-not-reported-spin", map[string]any{"outer": outer, "max_spin_ns": maxSpin}, "outer=%s: an async unlimited retry cancelled mid-flight reported %v instead of ErrExecutionCanceled", outer, e)
+		}
+		st.Count("spin_trials", per)
+		key := fmt.Sprintf("%s/%d/%d", outer, maxSpin, seed)
+		st.Case(key, true, "outer="+outer)
+		st.Sample(key, func() any { return map[string]any{"outer": outer, "max_spin_ns": maxSpin, "trials": per} })
+	})
+}
+
+type atomicErr struct {
+	mu sync.Mutex
+	e  error
+}
+
+func (a *atomicErr) set(e error) {
+	a.mu.Lock()
+	if a.e == nil {
+		if e == nil {
+			e = errors.New("nil error: the execution completed without error")
+		}
+		a.e = e
+	}
+	a.mu.Unlock()
+}
+func (a *atomicErr) get() error { a.mu.Lock(); defer a.mu.Unlock(); return a.e }
+
+func timeoutWith(d time.Duration) failsafe.Policy[int] { return timeout.With[int](d) }
